@@ -68,6 +68,10 @@ func (zp *ZoneParser) generate(l lex) (RR, bool) {
 		if l.value == zNewline {
 			break
 		}
+		if strings.Contains(l.token, "\n") {
+			// A quoted token spanning lines would make every step yield several records.
+			return zp.setParseError("bad data in $GENERATE directive", l)
+		}
 
 		s += l.token
 	}
